@@ -1,7 +1,7 @@
 """C15 - reductions and concurrent collections (narrow, structural clauses)."""
 import re
 
-from gsa.cfg import Fn, S, is_call, walk, lit
+from gsa.cfg import Fn, S, SN, is_call, walk, lit
 from gsa import lock as L
 from gsa import race
 from gsa import rules as R
@@ -190,24 +190,51 @@ def atomics(ctx, fx):
             else:
                 args = [S(x) for x in cas[0].get("a", [])]
                 old = args[0]
+                # the value installed, with locals that have one defining expression expanded (a hoisted or renamed
+                # temporary is the same thing); a local computed from the expected variable must be recomputed after a
+                # failed compare_exchange, which reloads the expected variable
+                alldefs = {}
+                for _, e in fn.events(lambda e: (e.get("k") == "decl" and "init" in e) or (e.get("k") == "assign" and e.get("op") == "=")):
+                    if e["k"] == "decl":
+                        alldefs.setdefault(e["n"], set()).add(S(e.get("init")))
+                    else:
+                        alldefs.setdefault(e.get("lp"), set()).add(S(e.get("rhs")))
+                D = args[1] if len(args) > 1 else "?"
+                through = []
+                for _ in range(3):
+                    for v, ds in alldefs.items():
+                        if len(ds) == 1 and v not in (old, a, b) and re.search(r"\b%s\b" % re.escape(v), D):
+                            d1 = next(iter(ds))
+                            if re.search(r"\b%s\b" % re.escape(old), d1):
+                                through.append(v)
+                            D = re.sub(r"\b%s\b" % re.escape(v), d1, D)
+                cpos = [p for p, e in fn.events(lambda e: e is cas[0])]
+                for v in set(through):
+                    redefine = lambda e, v=v: (e.get("k") == "decl" and e.get("n") == v) or (e.get("k") == "assign" and e.get("lp") == v)
+                    h, _ = fn.search([fn.after(cpos[0])], stop=lambda e: redefine(e) or e is cas[0])
+                    if any(fn.ev(q) is cas[0] for q in h):
+                        det.append("after a failed compare_exchange (which reloads %s) the next attempt still installs %s computed from "
+                                   "the old %s: a concurrent update in between is overwritten" % (old, v, old))
+                gnorm = SN({"k": "bin", "op": cmpop, "l": {"k": "ref", "n": old}, "r": {"k": "ref", "n": b}}) if cmpop else None
                 if cmpop:
-                    if args[1] != b:
-                        det.append("installs %s, not %s" % (args[1], b))
-                    conds = [S(fn.branch(bid)[0]) for bid in fn.blocks if fn.branch(bid)]
-                    if "(%s %s %s)" % (old, cmpop, b) not in conds:
+                    if D != b:
+                        det.append("installs %s, not %s" % (D, b))
+                    conds = [SN(fn.branch(bid)[0]) for bid in fn.blocks if fn.branch(bid)]
+                    if gnorm not in conds:
                         det.append("loop guard is not `%s %s %s`: %s" % (old, cmpop, b, conds))
                     # CAS only attempted when the guard holds
-                    g = lambda t: S(t) == "(%s %s %s)" % (old, cmpop, b)
+                    g = lambda t: SN(t) == gnorm
                     if fn.guarded_positions(lambda e: e is cas[0], g, True):
                         det.append("CAS attempted although the value need not change")
                 else:
-                    if args[1] != "(%s %s %s)" % (old, arith, b):
-                        det.append("installs %s, not %s %s %s" % (args[1], old, arith, b))
+                    want = {"(%s %s %s)" % (old, arith, b)} | ({"(%s + %s)" % (b, old)} if arith == "+" else set())
+                    if D not in want:
+                        det.append("installs %s, not %s %s %s" % (D, old, arith, b))
                 # loop until success: the function returns only via the CAS-success edge or the guard-false edge
                 isc = lambda t: t.get("k") == "call" and (t.get("name") or "").startswith("compare_exchange")
                 ge = fn.guard_edges(isc, True)
                 if cmpop:
-                    ge |= fn.guard_edges(lambda t: S(t) == "(%s %s %s)" % (old, cmpop, b), False)
+                    ge |= fn.guard_edges(lambda t: SN(t) == gnorm, False)
                 _, ex = fn.search([fn.entry_state()], edge_ok=lambda bb, i, s: (bb, i) not in ge)
                 if ex:
                     det.append("returns after a failed compare_exchange")
